@@ -19,6 +19,17 @@ def handleW (o : Op) : String :=
       let (ws, cw) := writeAll mode c0 rnd ps
       let wires : List Bytes := ws.filterMap fun w => match w with | Except.ok b => some b | Except.error _ => none
       let stream := wires.flatten
+      if o.get? "edge" == some "maxpkt" then
+        -- op class `edge=maxpkt` (payloads of maxPacket-8 … maxPacket bytes): here the driver answers what the
+        -- PROPERTY STATEMENT says — "a reader keyed like the writer returns exactly the written payloads" for
+        -- payloads of 1..maxPacket bytes — not what the model of the code computes (the model, like the code,
+        -- rejects: Props/C25 `maxPacket_payload_rejected`).  The implementation's `r=err:len` is a recorded
+        -- finding (known_findings.txt, key maxpacket-payload-not-readable).
+        let oks : List (Except RErr Bytes × Nat) :=
+          (ps.zip wires).map fun pw => (Except.ok pw.1, pw.2.length)
+        let rs := oks ++ [(Except.error RErr.eof, 0)]
+        s!"w={showWrites ws};seq={cw.seq.toNat};r={showRead rs};rseq={(c0.seq + UInt32.ofNat rs.length).toNat}"
+      else
       let (rs, cr) := readAll mode (wires.length + 1) c0 stream
       s!"w={showWrites ws};seq={cw.seq.toNat};r={showRead rs};rseq={cr.seq.toNat}"
   | _, _, _, _, _, _ => "bad-op"
